@@ -164,6 +164,13 @@ func (h *hgen) client() {
 	}
 	op := g.Pick("list", "get", "seen", "src", "del", "purge", "hget", "hsrc", "hdel", "msrc", "mdel", "list", "get", "seen")
 	arg := vh.HS(h.id(mb))
+	if g.Chance(0.06) {
+		// ids that are no path segment: empty, slashes only — no message has them: an error, store unchanged
+		arg = vh.HS(g.Pick("", "", "/", "//"))
+	} else if g.Chance(0.02) {
+		// dot segments as ids: restClient.do's JoinPath cleans them away (known finding K-C14-client-slash)
+		arg = vh.HS(g.Pick(".", "..", "x/.."))
+	}
 	if op[0] == 'h' {
 		arg = fmt.Sprint(g.Intn(h.adds[mb] + 1))
 	}
